@@ -25,13 +25,18 @@ Theorem C07_surrogate_pair_refuted :
 Proof. exact surrogate_pair_refuted. Qed.
 Print Assumptions C07_surrogate_pair_refuted.
 
-Theorem C07_object_type_without_fields_refuted : parse_type_system_document 0 w_type_no_fields = PErr.
-Proof. exact object_type_without_fields_refuted. Qed.
-Print Assumptions C07_object_type_without_fields_refuted.
+(** formerly refuted (known findings until /repo 530788b, 3814a72): now positive *)
+Theorem C07_object_type_without_fields_parses :
+  exists d kw p n, parse_type_system_document 0 w_type_no_fields = POk d /\
+    d = [TSType (TDObject None p n [] [] [] kw)] /\ iname n = s "A" /\ ck_tsdoc w_type_no_fields 0 d = true.
+Proof. exact object_type_without_fields_parses. Qed.
+Print Assumptions C07_object_type_without_fields_parses.
 
-Theorem C07_union_without_members_refuted : parse_type_system_document 0 w_union_no_members = PErr.
-Proof. exact union_without_members_refuted. Qed.
-Print Assumptions C07_union_without_members_refuted.
+Theorem C07_union_without_members_parses :
+  exists d kw p n, parse_type_system_document 0 w_union_no_members = POk d /\
+    d = [TSType (TDUnion None p n [] [] kw)] /\ iname n = s "U" /\ ck_tsdoc w_union_no_members 0 d = true.
+Proof. exact union_without_members_parses. Qed.
+Print Assumptions C07_union_without_members_parses.
 
 (** every pair anywhere in the tree the parser returns is the trace of a successful run of its rule's
     body on exactly its span of the input -- any input, any start rule *)
